@@ -666,6 +666,15 @@ impl<'m> MCTPSMBusContext<'m> {
                         }
                     }
 
+                    // The response must carry the instance ID of the request
+                    // so that the requester can match it. The response
+                    // generators always use instance ID 0, so patch it in
+                    // and update the PEC.
+                    if header.instance_id() != 0 {
+                        response_buf[9] |= header.instance_id();
+                        response_buf[len - 1] = pec(&response_buf[0..(len - 1)]);
+                    }
+
                     return Ok(((msg_type, payload), Some(len)));
                 }
 
